@@ -267,7 +267,7 @@ def replay(case):
     if k == "nameid":
         check_nameid(res, tuple(case["keys"]), case["spell"], case["deco"])
         return res.deviations
-    if k in ("genbank", "genbank-dup"):
+    if k in ("genbank", "genbank-dup", "genbank-fctypes"):
         from checks import c18_genbank
 
         c18_genbank.replay(res, case)
